@@ -23,7 +23,8 @@ CONSTANTS MaxN,        \* classes per hierarchy
           AccAttrs,    \* what the machine may access: subset of {"media", "template", "js", "css"}
           AccVias,     \* subset of {"cls", "inst"}
           ImplD,       \* the deviation set ImplRefines is evaluated for
-          Trim         \* TRUE: drop near-duplicate choices (quick tier), see Trimmed
+          Trim,        \* TRUE: drop near-duplicate choices (quick tier), see Trimmed
+          Plains       \* TRUE: also build plain (non-Component) mixin classes with a nested Media
 
 VARIABLES nacc, ist          \* number of accesses made; state of the implementation-shaped model
 mcVars == <<kase, memo, ret, nacc, ist>>
@@ -85,12 +86,21 @@ ListsFor(n) == IF Lists = ListsPos
                THEN {[js |-> <<n + 1>>, all |-> <<n + 1, 1>>, print |-> <<1>>]}
                ELSE Lists
 
-Cands(n) ==
-  {[bases |-> b, media |-> k, lists |-> L0, ext |-> "true", extl |-> <<>>, attr |-> a] :
+ExtChoicesAll(n) == ExtChoices(n) \cup (IF "list" \in Exts /\ ~Trim THEN {[ext |-> "list", extl |-> <<>>]} ELSE {})
+
+CompCands(n) ==
+  {[plain |-> FALSE, bases |-> b, media |-> k, lists |-> L0, ext |-> "true", extl |-> <<>>, attr |-> a] :
       b \in BaseChoices(n), k \in Kinds \ {"def"}, a \in Attrs} \cup
   (IF "def" \in Kinds
-   THEN {[bases |-> b, media |-> "def", lists |-> l, ext |-> e.ext, extl |-> e.extl, attr |-> a] :
-           b \in BaseChoices(n), l \in ListsFor(n), e \in ExtChoices(n), a \in Attrs}
+   THEN {[plain |-> FALSE, bases |-> b, media |-> "def", lists |-> l, ext |-> e.ext, extl |-> e.extl, attr |-> a] :
+           b \in BaseChoices(n), l \in ListsFor(n), e \in ExtChoicesAll(n), a \in Attrs}
+   ELSE {})
+\* a mixin: only plain bases, no assets
+Cands(n) ==
+  CompCands(n) \cup
+  (IF Plains
+   THEN {[r EXCEPT !.plain = TRUE] :
+           r \in {x \in CompCands(n) : x.attr = A0 /\ \A i \in 1..Len(x.bases) : kase.cls[x.bases[i]].plain}}
    ELSE {})
 
 \* Quick-tier reduction of the catalogue: a class without listed bases gets extend = False with
@@ -109,7 +119,7 @@ AddClass == /\ N(kase) < MaxN /\ nacc = 0 /\ Valid(kase)
             /\ UNCHANGED <<memo, ret, nacc, ist>>
 
 MCAccess == /\ nacc < MaxAcc /\ N(kase) >= 1 /\ Valid(kase)
-            /\ \E c \in 0..N(kase), via \in AccVias, a \in AccAttrs :
+            /\ \E c \in Accessible(kase), via \in AccVias, a \in AccAttrs :
                   IF a = "media" THEN AccessMedia(c, via) ELSE AccessAttr(c, a, via)
             /\ nacc' = nacc + 1
             /\ ist' = ImplStep(kase, ImplD, ist, ret'.c, ret'.a)
@@ -130,13 +140,13 @@ ImplSets(K, D, c) ==
   LET st == ImplFill(K, D, [memo |-> <<>>, resolved |-> 1..N(K)], c) IN
   [t \in Types |-> Range(ImplMedia(K, st, c)[t])]
 InheritOnlyOnShape ==
-  \A c \in 1..N(kase) : (nacc = 0 /\ Valid(kase) /\ ImplSets(kase, {"inherit"}, c) # MediaVal(kase, c)) => InheritShape(kase, c)
+  \A c \in Accessible(kase) \ {0} : (nacc = 0 /\ Valid(kase) /\ ImplSets(kase, {"inherit"}, c) # MediaVal(kase, c)) => InheritShape(kase, c)
 
 \* the pairwise flattened merge contradicts the specification only on its named shape
 ImplLists(K, D, c) ==
   LET st == ImplFill(K, D, [memo |-> <<>>, resolved |-> 1..N(K)], c) IN ImplMedia(K, st, c)
 FlattenOnlyOnShape ==
-  \A c \in 1..N(kase), t \in Types :
+  \A c \in Accessible(kase) \ {0}, t \in Types :
      (nacc = 0 /\ Valid(kase) /\ ~MediaOK(ImplLists(kase, {"flatten"}, c)[t], kase, c, t)) => FlattenShape(kase, c, t)
 
 (* ---- export -------------------------------------------------------------------- *)
